@@ -1,4 +1,5 @@
 CONSTANTS MaxLater = 3
+  PLens = {0, 63, 64, 65, 127, 128, 129, 255, 256, 257, 511, 512, 513, 767, 900, 960, 992, 996, 1000}
 INIT Init
 NEXT Next
 INVARIANT Emit
